@@ -544,6 +544,93 @@ def gen_flag():
             "def flagOpenOptions : List (List Nat) := [" + ", ".join(bytes_lit(k) for k in flags) + "]", "", "end Nun.Gen", ""]
     return "\n".join(out)
 
+# the oplog record, byte for byte: the order and width of the fields `write_op_log` writes, the order in which the forward scan of
+# `read_operations_since_from_file` reads them back (after the time stamp it is positioned behind), the buffers' sizes, what each buffer
+# is decoded into, and the numbering of the operation kinds in both directions
+def usize_consts():
+    text = blank(src("disk_ops.rs")); out = {}
+    for m in re.finditer(r"const\s+(OP_\w+)\s*:\s*usize\s*=\s*([^;]+);", text):
+        out[m.group(1)] = m.group(2).strip()
+    def val(name, depth=0):
+        if depth > 8: raise ExtractError(f"oplog record constants: {name} does not resolve")
+        e = out.get(name)
+        if e is None: raise ExtractError(f"oplog record constants: {name} not found")
+        total = 0
+        for t in e.split("+"):
+            t = t.strip()
+            total += int(t) if t.isdigit() else val(t, depth + 1)
+        return total
+    return {k: val(k) for k in out}
+
+def gen_oprec():
+    consts = usize_consts()
+    for k in ("OP_RECORD_SIZE", "OP_TIME_SIZE", "OP_KEY_SIZE", "OP_DB_ID_SIZE", "OP_OP_SIZE"):
+        if k not in consts: raise ExtractError(f"oplog record constants: {k} missing")
+    raw, b = fn_body("disk_ops.rs", r"pub fn write_op_log\s*\(", "oplog record writer")
+    hdr = find1("disk_ops.rs", r"pub fn write_op_log\s*\(([^)]*)\)", "oplog record writer header").group(1)
+    ptypes = {m.group(1): m.group(2) for m in re.finditer(r"(\w+)\s*:\s*&?(?:mut\s+)?([\w<>]+)", hdr)}
+    width = {"u64": 8, "u32": 4, "u8": 1, "i32": 4}
+    writer = []
+    for m in re.finditer(r"stream\s*\.\s*write(?:_all)?\s*\(\s*&\s*(?:(\w+)\s*\.\s*to_(le|be)_bytes\s*\(\s*\)|\[\s*(\w+)\s*\])\s*\)", b):
+        if m.group(1):
+            if m.group(2) != "le": raise ExtractError("oplog record writer: a field is written big-endian — not modelled")
+            t = ptypes.get(m.group(1))
+            if t not in width: raise ExtractError(f"oplog record writer: type of {m.group(1)} ({t}) unknown")
+            writer.append((m.group(1), width[t]))
+        else:
+            writer.append((m.group(3), 1))
+    if not writer: raise ExtractError("oplog record writer: no field writes found")
+    raw, b = fn_body("disk_ops.rs", r"fn read_operations_since_from_file\s*\(", "oplog record reader")
+    bufs = {}
+    for m in re.finditer(r"let\s+mut\s+(\w+)\s*=\s*\[\s*0\s*;\s*(\w+)\s*\]", b):
+        bufs[m.group(1)] = int(m.group(2)) if m.group(2).isdigit() else consts.get(m.group(2))
+    lm = re.search(r"while\s+let\s+Ok\s*\(\s*byte_read\s*\)\s*=\s*f\s*\.\s*read\s*\(\s*&mut\s+(\w+)\s*\)\s*\{", b)
+    if not lm: raise ExtractError("oplog record reader: the forward-scan loop was not found")
+    depth = 1; i = lm.end()
+    while i < len(b) and depth > 0:
+        depth += {"{": 1, "}": -1}.get(b[i], 0); i += 1
+    body = b[lm.end():i]
+    order = [lm.group(1)] + re.findall(r"f\s*\.\s*read(?:_exact)?\s*\(\s*&mut\s+(\w+)\s*\)", body)
+    reader = []
+    for name in order:
+        if bufs.get(name) is None: raise ExtractError(f"oplog record reader: buffer {name} has no known size")
+        reader.append((name, bufs[name]))
+    decoded = []
+    for m in re.finditer(r"(?:let\s+(?:mut\s+)?)?(\w+)(?:\s*:\s*u64)?\s*=\s*(?:u64::from_le_bytes\s*\(\s*(\w+)\s*\)|ReplicateOpp::from\s*\(\s*(\w+)\s*\[\s*0\s*\]\s*\))", body):
+        decoded.append((m.group(1), m.group(2) or m.group(3)))
+    sk = re.search(r"f\s*\.\s*seek\s*\(\s*SeekFrom::Start\s*\(\s*seek_point\s*\+\s*(\w+)\s+as\s+u64\s*\)\s*\)", b)
+    if not sk: raise ExtractError("oplog record reader: the seek behind the time stamp was not found")
+    newm = re.search(r"OpLogRecord::new\s*\(([^)]*)\)", body)
+    new_args = [a.strip() for a in newm.group(1).split(",")] if newm else []
+    sig = find1("bo.rs", r"impl OpLogRecord \{\s*pub fn new\s*\(([^)]*)\)", "OpLogRecord::new").group(1)
+    new_params = [a.strip().split(":")[0].strip() for a in sig.split(",") if a.strip()]
+    raw2, b2 = fn_body("bo.rs", r"pub fn to_u8\s*\(\s*&self\s*\)\s*->\s*u8", "ReplicateOpp::to_u8")
+    to_u8 = [(m.group(1), int(m.group(2))) for m in re.finditer(r"ReplicateOpp::(\w+)\s*=>\s*(\d+)", b2)]
+    raw3, b3 = fn_body("bo.rs", r"impl From<u8> for ReplicateOpp\s*\{\s*fn from\s*\(", "ReplicateOpp::from(u8)")
+    from_u8 = [(int(m.group(1)), m.group(2)) for m in re.finditer(r"(\d+)\s*=>\s*(\w+)", b3)]
+    dm = re.search(r"_\s*=>\s*(\w+)", b3)
+    if not to_u8 or not from_u8 or not dm: raise ExtractError("operation kinds: to_u8 / from(u8) tables not found")
+    pl = lambda rows: "[" + ", ".join(f"({bytes_lit(a)}, {n})" for a, n in rows) + "]"
+    out = ["namespace Nun.Gen", "",
+           "/-- OP_RECORD_SIZE, OP_TIME_SIZE, OP_KEY_SIZE, OP_DB_ID_SIZE, OP_OP_SIZE of disk_ops.rs -/",
+           f"def opRecordConsts : List Nat := [{consts['OP_RECORD_SIZE']}, {consts['OP_TIME_SIZE']}, {consts['OP_KEY_SIZE']}, {consts['OP_DB_ID_SIZE']}, {consts['OP_OP_SIZE']}]", "",
+           "/-- `write_op_log`: (what is written, bytes), in order; every multi-byte field little-endian — " + ", ".join(f"{a}:{n}" for a, n in writer) + " -/",
+           f"def opRecWriter : List (List Nat × Nat) := {pl(writer)}", "",
+           "/-- the forward scan: (buffer, bytes) in the order read, starting behind the time stamp — " + ", ".join(f"{a}:{n}" for a, n in reader) + " -/",
+           f"def opRecReader : List (List Nat × Nat) := {pl(reader)}", "",
+           f"/-- the scan starts at `seek_point + {sk.group(1)}` -/",
+           f"def opRecReaderSkips : Nat := {consts.get(sk.group(1), -1)}", "",
+           "/-- (variable, buffer it is decoded from) — " + ", ".join(f"{a}<-{c}" for a, c in decoded) + " -/",
+           "def opRecDecoded : List (List Nat × List Nat) := [" + ", ".join(f"({bytes_lit(a)}, {bytes_lit(c)})" for a, c in decoded) + "]", "",
+           "/-- arguments of `OpLogRecord::new(…)` in the scan, and the parameters of its definition -/",
+           "def opRecNewArgs : List (List Nat) := [" + ", ".join(bytes_lit(a) for a in new_args) + "]",
+           "def opRecNewParams : List (List Nat) := [" + ", ".join(bytes_lit(a) for a in new_params) + "]", "",
+           "/-- `ReplicateOpp::to_u8` and `From<u8>` (with its default) -/",
+           f"def opKindToU8 : List (List Nat × Nat) := {pl(to_u8)}",
+           "def opKindFromU8 : List (Nat × List Nat) := [" + ", ".join(f"({n}, {bytes_lit(a)})" for n, a in from_u8) + "]",
+           f"def opKindDefault : List Nat := {bytes_lit(dm.group(1))}", "", "end Nun.Gen", ""]
+    return "\n".join(out)
+
 def write(name, text):
     os.makedirs(OUT, exist_ok=True)
     p = os.path.join(OUT, name)
@@ -553,7 +640,7 @@ def write(name, text):
 
 def main():
     errors = []
-    for name, fn in [("Lits.lean", gen_lits), ("Guards.lean", gen_guards), ("PanicSites.lean", gen_panic_sites), ("Atomic.lean", gen_atomic), ("Close.lean", gen_close), ("Notify.lean", gen_notify), ("Commands.lean", gen_commands), ("Trailers.lean", gen_trailers), ("Flag.lean", gen_flag)]:
+    for name, fn in [("Lits.lean", gen_lits), ("Guards.lean", gen_guards), ("PanicSites.lean", gen_panic_sites), ("Atomic.lean", gen_atomic), ("Close.lean", gen_close), ("Notify.lean", gen_notify), ("Commands.lean", gen_commands), ("Trailers.lean", gen_trailers), ("Flag.lean", gen_flag), ("OpRec.lean", gen_oprec)]:
         try:
             write(name, "-- GENERATED by extract/extract.py from /repo/src — do not edit\n" + fn())
         except ExtractError as e:
